@@ -167,9 +167,9 @@ def _catalogue(tier, seed):
     out.append(_c("cl", "invgamma", "op-modemean", [dict(mode=3.0, mean=1.0)], step=1e-2, reject="ValueError"))
     out.append(_c("cl", "invgamma", "op-noparams", [dict()], step=1e-2, reject="ValueError"))
     out.append(_c("re", "invgamma", "array", [dict(a=2.0, scale=sc, loc=1.0) for sc in SC], step=1e-2,
-                  reject="TypeError"))                                              # documented: array scale needs loc == 0
+                  reject="TypeError", unsupported=True))                                              # documented: array scale needs loc == 0
     out.append(_c("re", "invgamma", "array-a", [dict(a=a, scale=1.0, loc=0.0) for a in A[:2]], step=1e-2,
-                  reject="TypeError"))
+                  reject="TypeError", unsupported=True))
     # ------------------------------------------------------------------ gamma (shape alpha, scale theta)
     TH = [1.0, 0.5, 4.0]
     gsteps = [1e-2, 1e-1] if quick else [1e-2, 1e-1, 3e-2]
@@ -565,8 +565,10 @@ def _run(case):
                 return ok(nontrivial=True, outcome="%s|rejected(%s)" % (label, case["reject"]))
             return bad("invalid parameters %s raised %r instead of the documented %s" % (rows, e, case["reject"]),
                        finding_key=_key(case, "wrong-rejection:%s" % type(e).__name__))
-        return bad("invalid parameters %s were accepted (documented: %s)" % (rows, case["reject"]),
-                   finding_key=_key(case, "accepted-invalid-params"))
+        if not case.get("unsupported"):
+            return bad("invalid parameters %s were accepted (documented: %s)" % (rows, case["reject"]),
+                       finding_key=_key(case, "accepted-invalid-params"))
+        # a documented *limitation* (not an invalid distribution): if a later version accepts it, it must be right
 
     targets, table, cdf_based = _targets(case)
 
@@ -602,6 +604,15 @@ def _run(case):
     step = case.get("step") or 1e-2
     tol = np.stack([R.tolerance(d, post, tails, qs, xi, cdf_based=cdf_based, table=table, step=step,
                                 loc_scale=t["ls"])[0] for (d, post), t in zip(dists, targets)])
+    if fam == "invgamma" and any(t["spec"][3] != 0 for t in targets):
+        # a shifted inverse gamma may equally be tabulated as log(Q - loc) (shift applied after the table): the documented
+        # accuracy is that of a linear interpolation in either representation
+        for i, t in enumerate(targets):
+            d0, post0 = R.make_dist(["invgamma", t["spec"][1], t["spec"][2], 0.0])
+            p0 = R.tolerance(d0, post0, tails, qs, xi, cdf_based=cdf_based, table=table, step=step, loc_scale=0.0)[1]
+            p1 = R.tolerance(dists[i][0], dists[i][1], tails, qs, xi, cdf_based=cdf_based, table=table, step=step,
+                             loc_scale=t["ls"])[1]
+            tol[i] += np.maximum(0.0, p0["table"] - p1["table"])
     det = dict(rows=rows, step=case.get("step"))
     stats = dict(grid_points=Rn * n)
 
